@@ -33,7 +33,7 @@ import (
 //     elapsed at (R, T).
 
 type toOp struct {
-	K   string `json:"k"`             // send recv timeout update block time
+	K   string `json:"k"`             // send recv timeout chase update block time
 	L   int    `json:"l,omitempty"`   // link
 	D   int    `json:"d,omitempty"`   // direction / side / chain
 	P   int    `json:"p,omitempty"`   // packet
@@ -160,6 +160,68 @@ func runC04(outer *testing.T) func(t rapid.TB, c toCase, rec *vx.Case) {
 		}
 		boundary := 0
 		triedRecv, triedTO := map[int]bool{}, map[int]bool{}
+		// attempt submits one MsgTimeout for p with proof height h and judges it; returns accepted.
+		attempt := func(i int, op toOp, p *sim.Pkt, h uint64, hclass string) bool {
+			pl := w.Links[p.Link]
+			sc, dc := w.SrcChain(p), w.DstChain(p)
+			nsr := w.NextSeqRecv(p)
+			if pl.Kind == sim.V1Ordered && h >= 2 {
+				if val, ok := ibcAt(w, dc, w.ReceiptKey(p), int64(h)-1); ok && len(val) == 8 {
+					nsr = binary.BigEndian.Uint64(val)
+				}
+			}
+			msg := w.BuildTimeout(p, nsr, h, op.Sig)
+			triedTO[p.Idx] = true
+			e, eKnown := tw.elapsedAtHeight(p, h)
+			ePrev, prevKnown := tw.elapsedAtHeight(p, h-1)
+			eNext, nextKnown := tw.elapsedAtHeight(p, h+1)
+			atBoundary := eKnown && ((prevKnown && ePrev != e) || (nextKnown && eNext != e))
+			if eKnown && !e && !nextKnown {
+				// the destination has not produced block h+1 yet: would it be elapsed one block interval later?
+				bt, _ := tw.ck[dc].At(h)
+				atBoundary = elapsedAt(p, clienttypes.ParseChainID(w.Chains[dc].ChainID), h+1, bt+int64(5*time.Second))
+			}
+			if atBoundary && w.HasCommitment(p) {
+				boundary++
+				if e {
+					rec.Class("timeout-proof-first-elapsed-height")
+				} else {
+					rec.Class("timeout-proof-last-unelapsed-height")
+				}
+			}
+			logStart := len(w.Log)
+			tres := w.Deliver(sc, op.Sig, msg)
+			if !committedCallback(w, logStart, "timeout", pktsim.SrcKey(w, p)) {
+				rec.Add("timeouts_rejected_or_noop", 1)
+				if os.Getenv("PKTB_DEBUG") != "" {
+					fmt.Fprintf(os.Stderr, "TOREJ e=%v %s h=%d err=%.240v\n", e, p, h, tres.Err)
+				}
+				if eKnown && e && w.HasCommitment(p) && len(pktsim.CommittedSteps(w, "recv")[pktsim.DstKey(w, p)]) == 0 {
+					rec.Add("timeouts_rejected_though_elapsed_and_unreceived", 1) // converse: health only
+				}
+				return false
+			}
+			rec.Add("timeouts_accepted", 1)
+			rec.Class("timeout-%s-%s", pl.Kind, hclass)
+			if !eKnown {
+				vx.Violatef(t, rec, id, "timeout-at-unbacked-height", "step %d: timeout of %s accepted with proof height %d, a height the destination chain %d never executed", i, p, h, dc)
+				return true
+			}
+			if !e {
+				bt, _ := tw.ck[dc].At(h)
+				vx.Violatef(t, rec, id, "timeout-before-elapsed-"+pl.Kind.String(), "step %d: timeout of %s accepted with proof height %d whose real header time on chain %d is %d ns, but neither height nor time had reached the timeout (timeout height %s, timeout timestamp v1 %d ns / v2 %d s)",
+					i, p, h, dc, bt, p.P1.TimeoutHeight, p.P1.TimeoutTimestamp, p.P2.TimeoutTimestamp)
+			}
+			if got, ok := tw.receivedAtVersion(p, int64(h)-1); ok {
+				rec.Add("nonreceipt_checked", 1)
+				if got {
+					vx.Violatef(t, rec, id, "timeout-of-received-packet", "step %d: timeout of %s accepted with proof height %d although the destination store at version %d shows it received", i, p, h, h-1)
+				}
+			} else {
+				rec.Add("nonreceipt_unknown", 1)
+			}
+			return true
+		}
 		for i, op := range c.Ops {
 			w.StepNo = i
 			l := w.Links[pick(len(w.Links), op.L)]
@@ -263,57 +325,24 @@ func runC04(outer *testing.T) func(t rapid.TB, c toCase, rec *vx.Case) {
 					boundary++
 					rec.Class("recv-at-boundary")
 				}
-			case "timeout":
+			case "timeout", "chase":
 				if len(w.Pkts) == 0 {
 					continue
 				}
 				p := w.Pkts[pick(len(w.Pkts), op.P)]
-				pl := w.Links[p.Link]
-				sc, dc := w.SrcChain(p), w.DstChain(p)
-				h, hclass := tw.chooseTimeoutHeight(op, p)
-				nsr := w.NextSeqRecv(p)
-				if pl.Kind == sim.V1Ordered && h >= 2 {
-					if val, ok := ibcAt(w, dc, w.ReceiptKey(p), int64(h)-1); ok && len(val) == 8 {
-						nsr = binary.BigEndian.Uint64(val)
-					}
-				}
-				msg := w.BuildTimeout(p, nsr, h, op.Sig)
-				triedTO[p.Idx] = true
-				e, eKnown := tw.elapsedAtHeight(p, h)
-				ePrev, prevKnown := tw.elapsedAtHeight(p, h-1)
-				eNext, nextKnown := tw.elapsedAtHeight(p, h+1)
-				atBoundary := eKnown && ((prevKnown && ePrev != e) || (nextKnown && eNext != e))
-				if atBoundary {
-					boundary++
-					rec.Class("timeout-proof-at-boundary")
-				}
-				logStart := len(w.Log)
-				w.Deliver(sc, op.Sig, msg)
-				if !committedCallback(w, logStart, "timeout", pktsim.SrcKey(w, p)) {
-					rec.Add("timeouts_rejected_or_noop", 1)
-					if eKnown && e && w.HasCommitment(p) {
-						rec.Add("timeouts_rejected_though_elapsed", 1) // converse: health only
-					}
+				if op.K == "timeout" {
+					h, hclass := tw.chooseTimeoutHeight(op, p)
+					attempt(i, op, p, h, hclass)
 					break
 				}
-				rec.Add("timeouts_accepted", 1)
-				rec.Class("timeout-%s-%s", pl.Kind, hclass)
-				if !eKnown {
-					vx.Violatef(t, rec, id, "timeout-at-unbacked-height", "step %d: timeout of %s accepted with proof height %d, a height the destination chain %d never executed", i, p, h, dc)
-					break
-				}
-				if !e {
-					bt, _ := tw.ck[dc].At(h)
-					vx.Violatef(t, rec, id, "timeout-before-elapsed-"+pl.Kind.String(), "step %d: timeout of %s accepted with proof height %d whose real header time on chain %d is %d ns, but neither height nor time had reached the timeout (timeout height %s, timeout timestamp v1 %d ns / v2 %d s)",
-						i, p, h, dc, bt, p.P1.TimeoutHeight, p.P1.TimeoutTimestamp, p.P2.TimeoutTimestamp)
-				}
-				if got, ok := tw.receivedAtVersion(p, int64(h)-1); ok {
-					rec.Add("nonreceipt_checked", 1)
-					if got {
-						vx.Violatef(t, rec, id, "timeout-of-received-packet", "step %d: timeout of %s accepted with proof height %d although the destination store at version %d shows it received", i, p, h, h-1)
+				// chase: an honest-looking relayer polls the destination block by block (fresh client
+				// update, then MsgTimeout) until the timeout is accepted: walks the proof height across
+				// the elapsed boundary one destination block at a time.
+				for k := 0; k < 1+pick(6, op.N); k++ {
+					h := w.FreshHeight(w.Links[p.Link], p.Dir, op.Sig)
+					if attempt(i, op, p, h, "chase") || !w.HasCommitment(p) {
+						break
 					}
-				} else {
-					rec.Add("nonreceipt_unknown", 1)
 				}
 			}
 			// global invariant after every step
@@ -382,7 +411,7 @@ func genC04(t *rapid.T) toCase {
 	n := rapid.IntRange(5, 30).Draw(t, "nops")
 	sends := 0
 	for i := 0; i < n; i++ {
-		k := rapid.SampledFrom([]string{"send", "send", "send", "timeout", "timeout", "timeout", "timeout", "recv", "recv", "recv", "update", "update", "block", "block", "time"}).Draw(t, "kind")
+		k := rapid.SampledFrom([]string{"recv", "recv", "recv", "chase", "chase", "timeout", "timeout", "timeout", "send", "send", "send", "send", "update", "block", "block", "time", "update"}).Draw(t, "kind")
 		if sends == 0 {
 			k = "send"
 		}
@@ -401,8 +430,8 @@ func genC04(t *rapid.T) toCase {
 				}
 				break
 			}
-			switch rapid.IntRange(0, 9).Draw(t, "tokind") {
-			case 0, 1, 2, 3, 4: // height only: dest height + {0..5}
+			switch rapid.IntRange(0, 10).Draw(t, "tokind") {
+			case 0, 1, 2, 3, 4: // height only: dest height + {0..8}
 				op.TH = 1 + rapid.IntRange(0, 8).Draw(t, "th")
 			case 5, 6: // timestamp only, on the 5 s block grid +-1 ns
 				op.TT = 5 * rapid.IntRange(1, 12).Draw(t, "tt5")
@@ -414,8 +443,8 @@ func genC04(t *rapid.T) toCase {
 				op.TT = rapid.IntRange(1, 60).Draw(t, "tt")
 			default: // far
 			}
-		case "recv", "timeout":
-			if rapid.Bool().Draw(t, "recent") {
+		case "recv", "timeout", "chase":
+			if rapid.IntRange(0, 3).Draw(t, "recent") > 0 {
 				op.P = sends - 1 - rapid.IntRange(0, 1).Draw(t, "back")
 			} else {
 				op.P = rapid.IntRange(0, sends).Draw(t, "pkt")
@@ -423,6 +452,9 @@ func genC04(t *rapid.T) toCase {
 			op.HM = rapid.SampledFrom([]int{0, 0, 1, 2, 2}).Draw(t, "hmode")
 			op.H = rapid.IntRange(0, 30).Draw(t, "hidx")
 			op.HD = rapid.IntRange(-1, 1).Draw(t, "hdelta")
+			if k == "chase" {
+				op.N = rapid.IntRange(0, 5).Draw(t, "attempts")
+			}
 		case "update":
 			op.L = rapid.IntRange(0, len(c.Links)-1).Draw(t, "link")
 			op.D = rapid.IntRange(0, 1).Draw(t, "side")
@@ -440,7 +472,7 @@ func genC04(t *rapid.T) toCase {
 func TestC04(t *testing.T) {
 	vx.Check(t, vx.Prop[toCase]{
 		ID:        "C04",
-		Rule:      "two chains with v1-unordered, v1-ordered, v2 and v2-alias links; histories of send (timeout height = dest height + {0..8}, timeout time = now + k*5 s +-1 ns or + 1..60 s, v2 in whole seconds 1..60 s ahead), recv and timeout with proof heights {fresh, any stored consensus height, the stored heights around the first elapsed one}, client updates, blocks, sub-second clock steps; non-trivial = a timeout whose proof height is the first/last height on either side of the elapsed boundary, a receive executed within +-1 block / 5 s of the timeout, or a recv/timeout race on one packet; distinct by full history",
+		Rule:      "two chains with v1-unordered, v1-ordered, v2 and v2-alias links; histories of send (timeout height = dest height + {0..8}, timeout time = now + k*5 s +-1 ns or + 1..60 s, v2 in whole seconds 1..60 s ahead), recv and timeout with proof heights {fresh, any stored consensus height, the stored heights around the first elapsed one}, chase = poll with fresh heights block by block until accepted, client updates, blocks, sub-second clock steps; non-trivial = a timeout whose proof height is the first/last height on either side of the elapsed boundary, a receive executed within +-1 block / 5 s of the timeout, or a recv/timeout race on one packet; distinct by full history",
 		MinNTFrac: 0.5,
 		Gen:       genC04,
 		Run:       runC04(t),
